@@ -1004,7 +1004,96 @@ def mapSet {α : Type} (m : List (Int × Option α)) (k : Int) (v : Option α) :
   (k, v) :: m.filter (fun p => p.1 ≠ k)
 `
 
+// c14Globals: process-global state the recovery code of C14 reaches - package-level variables of the two bisync files
+// that a function body writes (assignment, also through an index), takes the address of, or calls a state-changing /
+// synchronising method on. Fact c14_pkg_globals (metrics vectors - .Set / .Add / .Inc - are not state of the property).
+func c14Globals() []string {
+	meth := map[string]bool{"Store": true, "Load": true, "LoadOrStore": true, "LoadAndDelete": true, "Delete": true, "Range": true, "Swap": true,
+		"CompareAndSwap": true, "Do": true, "Lock": true, "Unlock": true, "RLock": true, "RUnlock": true}
+	set := map[string]bool{}
+	for _, rel := range []string{"pkg/redis/checkpoint/bisync.go", "syncer/bisync.go"} {
+		_, file := parseFile(rel)
+		vars := map[string]bool{}
+		for _, d := range file.Decls {
+			if gd, ok := d.(*ast.GenDecl); ok && gd.Tok == token.VAR {
+				for _, sp := range gd.Specs {
+					for _, n := range sp.(*ast.ValueSpec).Names {
+						vars[n.Name] = true
+					}
+				}
+			}
+		}
+		root := func(e ast.Expr) string {
+			for {
+				switch x := e.(type) {
+				case *ast.IndexExpr:
+					e = x.X
+				case *ast.SelectorExpr:
+					e = x.X
+				case *ast.ParenExpr:
+					e = x.X
+				case *ast.StarExpr:
+					e = x.X
+				case *ast.Ident:
+					if vars[x.Name] && x.Obj != nil && x.Obj.Kind == ast.Var {
+						if _, top := x.Obj.Decl.(*ast.ValueSpec); top {
+							return x.Name
+						}
+					}
+					return ""
+				default:
+					return ""
+				}
+			}
+		}
+		for _, d := range file.Decls {
+			fd, ok := d.(*ast.FuncDecl)
+			if !ok || fd.Body == nil {
+				continue
+			}
+			ast.Inspect(fd.Body, func(n ast.Node) bool {
+				switch x := n.(type) {
+				case *ast.AssignStmt:
+					if x.Tok != token.DEFINE {
+						for _, l := range x.Lhs {
+							if v := root(l); v != "" {
+								set[rel+":"+v+":written in "+fd.Name.Name] = true
+							}
+						}
+					}
+				case *ast.IncDecStmt:
+					if v := root(x.X); v != "" {
+						set[rel+":"+v+":written in "+fd.Name.Name] = true
+					}
+				case *ast.UnaryExpr:
+					if x.Op == token.AND {
+						if v := root(x.X); v != "" {
+							set[rel+":"+v+":address taken in "+fd.Name.Name] = true
+						}
+					}
+				case *ast.CallExpr:
+					if sel, ok := x.Fun.(*ast.SelectorExpr); ok && meth[sel.Sel.Name] {
+						if id, ok := sel.X.(*ast.Ident); ok {
+							if v := root(id); v != "" {
+								set[rel+":"+v+":."+sel.Sel.Name+" in "+fd.Name.Name] = true
+							}
+						}
+					}
+				}
+				return true
+			})
+		}
+	}
+	var out []string
+	for k := range set {
+		out = append(out, k)
+	}
+	sort.Strings(out)
+	return out
+}
+
 func genC14() {
+	facts["c14_pkg_globals"] = c14Globals()
 	pk := gfLoad("pkg/redis/checkpoint")
 	var sb strings.Builder
 	sb.WriteString(header)
